@@ -13,7 +13,7 @@ import sys
 
 VERIF = os.path.dirname(os.path.dirname(os.path.abspath(__file__)))
 EXTRA = {  # other checks worth running for a change seeded against a property
-    "C02a": ["C13"], "C02c": ["C17"], "C02f": ["C16"], "C01f": ["C16"], "C08f": ["C16"], "C03c": ["C16"], "C06d": ["C15"], "C05a": ["C06"], "C06b": ["C15"], "C15b": ["C09"], "C09b": ["C15"], "C20k": ["C15"], "C12m": ["C01"], "C01n": ["C15"], "C05p": ["C06"],
+    "C02a": ["C13"], "C02c": ["C17"], "C02f": ["C16"], "C01f": ["C16"], "C08f": ["C16"], "C03c": ["C16"], "C06d": ["C15"], "C05a": ["C06"], "C06b": ["C15"], "C15b": ["C09"], "C09b": ["C15"], "C20k": ["C15"], "C12m": ["C01"], "C01n": ["C15"], "C05p": ["C06"], "C12p": ["C01"],
 }
 HISTORY = {  # what had to be strengthened before the change was caught (filled from the campaign log)
     "C01a": "missed at first: no input held the same picture twice -> added stamp_twice / copy_block mutations",
@@ -97,7 +97,8 @@ MISSED_ON_ARRIVAL = set("""C01g C01h C02h C03g C04g C04h C05g C05h C08g C08h C09
 C01i C01j C02i C03i C03j C04j C05i C05j C06i C06j C07j C08i C08j C09j C10i C10j C11i C12i C12j C13i C13j C14i C14j C15i C16j C17j C19j
 C01k C02k C02l C04k C04l C05k C08l C13k C13l C06l C07k C09l C10l C12k C12l C14k C14l C15k C15l C16k C16l C17k C20k
 C01m C01n C03m C03n C13m C13n C14m C14n C06n C07n C09n C10n C11m C11n C16m C16n C17m C12m C12n C15m C15n C19m
-C01o C01p C02o C03o C04o C04p C05o C05p C08p C13o C13p C14o""".split())
+C01o C01p C02o C03o C04o C04p C05o C05p C08p C13o C13p C14o
+C06o C06p C07o C09p C10o C10p C11o C12o C12p C15o C15p C16p C18o""".split())
 
 
 def history_for(sid):
